@@ -811,9 +811,11 @@ func (p *BinaryProtocol) ReadBinary(copyBytes bool) (value []byte, err error) {
 			Cap: int(size),
 		})))
 	} else {
-		v := (*rt.GoString)(unsafe.Pointer(&value))
+		// a slice header has three words: without Cap the result has len > cap (0)
+		v := (*rt.GoSlice)(unsafe.Pointer(&value))
 		v.Ptr = rt.IndexPtr(*(*unsafe.Pointer)(unsafe.Pointer(&p.Buf)), byteTypeSize, p.Read)
 		v.Len = int(size)
+		v.Cap = int(size)
 	}
 
 	p.Read += int(size)
